@@ -151,6 +151,8 @@ def _sentinel(lp: ast.While, env: dict[str, ast.AST]) -> tuple[str, str | None]:
         return classify(lhs)  # a break inside the body is judged by the early-exit rule
     if isinstance(lp.test, ast.BoolOp) and isinstance(lp.test.op, ast.And) and any(eof_cmp(v, ast.NotEq) is not None for v in lp.test.values):
         return "extra-exit", None
+    if eof_cmp(lp.test, ast.Eq) is not None:
+        return "inverted", None
     if unparse(lp.test) == "True" and breaks:
         # [h = f.read(3);] if <lhs> == b'EOF': break   -- before anything else of the iteration is read
         body = list(lp.body)
@@ -256,6 +258,8 @@ def r2_fields(ctx: Ctx) -> None:
     elif kind == "peek":
         ctx.fail("IncludeIpsNode.__init__:sentinel", "the EOF marker is looked for through BufferedReader.peek, which returns only what is left in the "
                  "buffer: a well-formed patch whose trailer straddles a buffer boundary (8193 or 8194 bytes) is rejected")
+    elif kind == "inverted":
+        ctx.fail("IncludeIpsNode.__init__:sentinel", f"the loop runs WHILE the header equals the EOF marker (guard `{unparse(lp.test)}`): no record of a well-formed patch is read")
     elif kind == "extra-exit":
         ctx.fail("IncludeIpsNode.__init__:sentinel", f"the loop also ends on a condition other than the EOF marker (guard `{unparse(lp.test)}`): a patch cut "
                  "off at a record boundary is accepted")
